@@ -161,3 +161,46 @@ func VerifWirePacketGarbage() {
 	}
 	symapi.Reach("end")
 }
+
+// VerifFuRecovery (C07, inductive step over the fragment buffer): from a depacketizer whose
+// fragment buffer already holds ANY number of continuation fragments of an unterminated
+// fragmentation unit (a hostile or broken sender; sizes drawn from classes up to 70000, the
+// state is constructed directly instead of by feeding that many packets), a following
+// well-formed fragmented NAL and a following single NAL are both converted intact.
+func VerifFuRecovery() {
+	hevc := symapi.Bool("hevc")
+	held := []int{0, 1, 2, 15, 16, 17, 255, 1023, 1024, 1025, 4096, 70000}[symapi.Choose("heldFragments", 12)]
+	w := &verifRecWriter{}
+	seq := symapi.Uint16("seq")
+	ts := symapi.Uint32("ts")
+	var dp Depacketizer
+	var frags [][]byte
+	var nal, single []byte
+	if hevc {
+		d := verifNewH265(w)
+		for i := 0; i < held; i++ {
+			d.fragments = append(d.fragments, verifPkt([]byte{49 << 1, 1, 1, 0xee}, seq-uint16(held-i), ts))
+		}
+		dp = d
+		nal = []byte{1 << 1, 1, 0xa1, 0xa2, 0xa3}
+		frags = verifFu265(nal, []int{1})
+		single = []byte{19 << 1, 0x01, 0xaf, 0x21}
+	} else {
+		d := verifNewH264(w)
+		for i := 0; i < held; i++ {
+			d.fragments = append(d.fragments, verifPkt([]byte{0x7c, 0x01, 0xee}, seq-uint16(held-i), ts))
+		}
+		dp = d
+		nal = []byte{0x41, 0xa1, 0xa2, 0xa3}
+		frags = verifFuA(nal, []int{1})
+		single = []byte{0x65, 0x88, 0x84, 0x21}
+	}
+	for i, f := range frags {
+		dp.Depacketize(verifPkt(f, seq+uint16(i), ts+3000))
+	}
+	symapi.Assert(len(w.frames) == 1, "well-formed-fragmented-nal-after-an-unterminated-unit-emitted")
+	symapi.Assert(verifEqBytes(w.frames[0].Payload, nal), "fragmented-nal-intact")
+	dp.Depacketize(verifPkt(single, seq+2, ts+6000))
+	symapi.Assert(len(w.frames) == 2 && verifEqBytes(w.frames[1].Payload, single), "single-nal-after-that-intact")
+	symapi.Reach("end")
+}
